@@ -117,11 +117,10 @@ Section Main.
 
   (* ---- second half ----------------------------------------------------------------------------- *)
   Theorem format_partial fs e :
-    long_repeat (map (std_frame C) fs) = false ->
-    ei_formatted C (map cp_of_live fs) (ei_type (ex_module e) (ex_qualname e)) (ex_str e)
-    = std_text (std_tb C fs e).
+    long_repeat (map (std_frame C) fs) = false -> plain_exc e = true ->
+    ei_text C fs e = std_text (std_tb C fs e).
   Proof.
-    intro H. rewrite ei_formatted_plain. symmetry. apply std_text_plain. exact H.
+    intros H He. rewrite ei_text_plain, (plain_exc_tb C fs e He). symmetry. apply std_text_plain. exact H.
   Qed.
 
   Theorem frames_same l :
@@ -132,10 +131,8 @@ Section Main.
 
   (* ExceptionInfo's text is read back by ParsedException *)
   Theorem format_reparse fs e :
-    wf C (std_tb C fs e) = true ->
-    from_string C (ei_formatted C (map cp_of_live fs) (ei_type (ex_module e) (ex_qualname e)) (ex_str e))
-    = Ok (std_tb C fs e).
-  Proof. intro H. rewrite ei_formatted_plain. apply parse_plain. exact H. Qed.
+    wf C (ei_tb C fs e) = true -> from_string C (ei_text C fs e) = Ok (ei_tb C fs e).
+  Proof. intro H. rewrite ei_text_plain. apply parse_plain. exact H. Qed.
 
   (* line numbers printed by str(int) are always acceptable to the parser *)
   Lemma dec_lineno_ok n : lineno_ok C (dec n) = true.
@@ -153,12 +150,28 @@ Lemma std_roundtrip_refuted :
 Proof. exists rec_tb. split; [vm_compute; reflexivity|]. vm_compute. discriminate. Qed.
 
 Definition rec_live : live_frame := mkLive [114;46;112;121] 7 [102] [32;32;102;40;41;10].
-Definition rec_exc : live_exc := mkExc L_builtins [69] [69] [].
+Definition rec_exc : live_exc := mkExc L_builtins [69] [69] (Some []) [69].
 
-Lemma format_refuted :
-  exists fs e, ei_formatted py_cc (map cp_of_live fs) (ei_type (ex_module e) (ex_qualname e)) (ex_str e)
-               <> std_text (std_tb py_cc fs e).
-Proof. exists (repeat rec_live 5), rec_exc. vm_compute. discriminate. Qed.
+(* the three recorded reasons: recursion, a display-time suggestion, a failing __str__ *)
+Lemma format_refuted_recursion :
+  exists fs e, plain_exc e = true /\ ei_text py_cc fs e <> std_text (std_tb py_cc fs e).
+Proof. exists (repeat rec_live 5), rec_exc. split; [reflexivity|]. vm_compute. discriminate. Qed.
+
+Definition hint_exc : live_exc :=      (* AttributeError: no attribute 'bluch'. Did you mean: 'blech'? *)
+  mkExc L_builtins [65;69] [65;69] (Some [110;111;32;98;108;117;99;104])
+        ([65;69] ++ L_colon ++ [110;111;32;98;108;117;99;104] ++ L_hint ++ [39;98;108;101;99;104;39;63]).
+Definition nostr_exc : live_exc :=     (* class Bad whose __str__ raises *)
+  mkExc L_builtins [66;97;100] [66;97;100] None ([66;97;100] ++ L_colon ++ L_str_failed).
+
+Lemma format_refuted_hint :
+  exists fs e, long_repeat (map (std_frame py_cc) fs) = false /\ hint_of e <> None /\
+               ei_text py_cc fs e <> std_text (std_tb py_cc fs e).
+Proof. exists [rec_live], hint_exc. split; [reflexivity|]. split; vm_compute; discriminate. Qed.
+
+Lemma format_refuted_str :
+  exists fs e, long_repeat (map (std_frame py_cc) fs) = false /\ hint_of e <> None /\
+               ei_text py_cc fs e <> std_text (std_tb py_cc fs e).
+Proof. exists [rec_live], nostr_exc. split; [reflexivity|]. split; vm_compute; discriminate. Qed.
 
 (* ---- witnesses used by the Examples of Props/C16.v ---------------------------------------------------- *)
 From Coq Require Import String.
@@ -195,4 +208,5 @@ Definition live_fs : list live_frame :=
   [ mkLive (s2l "/tmp/my dir/ma.py") 12 (s2l "<module>") (s2l "    c0(0)" ++ [10]);
     mkLive (s2l "<gen1>") 2 (s2l "c1") [];
     mkLive (s2l "/tmp/my dir/ma.py") 31 (s2l "meth") ([9] ++ s2l "raise Outer.Err('a: b')  " ++ [10]) ].
-Definition live_e : live_exc := mkExc (s2l "ma") (s2l "Outer.Err") (s2l "Err") (s2l "a: b").
+Definition live_e : live_exc :=
+  mkExc (s2l "ma") (s2l "Outer.Err") (s2l "Err") (Some (s2l "a: b")) (s2l "ma.Outer.Err: a: b").
